@@ -705,6 +705,50 @@ type LongCase struct {
 	N   int    `json:"n"`
 }
 
+// ManyCase: N statements, each in a tag of its own, against the same statements merged into ONE tag (separated by line
+// ends / semicolons) and against the same tags inside one block: the number of tags is layout.
+type ManyCase struct {
+	Stmt int `json:"stmt"` // index into manyStmts
+	N    int `json:"n"`
+}
+
+var manyStmts = []struct{ pre, stmt, post string }{
+	{`<% let x = 0 %>`, `x = x + 1`, `<%= x %>`},
+	{`<% let x = "" %>`, `let y = 1`, `<%= y %>`},
+	{``, `id(1)`, `end`},
+}
+
+func runMany(r *vk.Run, c ManyCase, class string) *vk.Fail {
+	defer r.Watch("many", c)()
+	r.Count(fmt.Sprintf("%d x %d", c.Stmt, c.N), class)
+	m := manyStmts[c.Stmt]
+	split := m.pre + strings.Repeat("<% "+m.stmt+" %>", c.N) + m.post
+	merged := m.pre + "<% " + strings.Repeat(m.stmt+"\n", c.N) + " %>" + m.post
+	inBlock := m.pre + "<%= if (true) { %>" + strings.Repeat("<% "+m.stmt+" %>", c.N) + "<% } %>" + m.post
+	emitSplit := m.pre + strings.Repeat("<%= 1 %>", c.N)
+	emitBlock := m.pre + "<%= if (true) { %>" + strings.Repeat("<%= 1 %>", c.N) + "<% } %>"
+	render := func(src string) vk.Res {
+		return vk.Safe(func() (string, error) { return plush.Render(src, progs.Context(progs.Data(), progs.Helpers(nil), nil)) })
+	}
+	base := render(merged)
+	for name, src := range map[string]string{"one tag per statement": split, "one tag per statement, inside a block": inBlock} {
+		if got := render(src); got.Panicked() || norm(got.Err) != norm(base.Err) || got.Out != base.Out {
+			return &vk.Fail{Kind: "many", Case: c, Msg: fmt.Sprintf("%d statements %q merged into one tag give %s; %s: %s", c.N, m.stmt, base, name, got)}
+		}
+	}
+	if a, b := render(emitSplit), render(emitBlock); a.Panicked() || b.Panicked() || norm(a.Err) != norm(b.Err) || a.Out != b.Out {
+		short := func(x vk.Res) string {
+			s := x.String()
+			if len(s) > 200 {
+				s = s[:200] + "..."
+			}
+			return s
+		}
+		return &vk.Fail{Kind: "many", Case: c, Msg: fmt.Sprintf("%d output tags at top level give %s, the same tags inside one block give %s", c.N, short(a), short(b))}
+	}
+	return nil
+}
+
 // longRuns: switch for the phase E4.
 var longRuns = true
 
@@ -982,12 +1026,22 @@ func (g *sgen) program() []model.Node {
 	return body
 }
 
-const rule = "programs: (E) 17 fixed programs (runs of silent statements; statements directly after the closing brace of if / else / else-if / for / for over a call / function / function in a function / helper block / nested blocks; loops with break and continue; hash and array literals; strings containing # and tag delimiters; text with line breaks) x both printers (tag per statement, compact single-tag blocks) x 3 modes x 600 (quick 100) enumerated layout decision vectors each; (E2) 17 source-level programs written with spellings the printer never produces (numbers with a leading or trailing dot in every operand position, operators, member access after a call or an index, back-quoted and escaped strings holding # %> and line breaks, literals over several lines, index assignment, empty blocks, if with return, chains and loops nested up to eight deep inside one tag, contentFor, comment tags and empty tags already present) x 3 modes x 2000 (quick 150) decision vectors; (E3) 10 source-level programs that END INSIDE their last tag (no %>; plush renders them) x 3 modes x 600 (quick 60) vectors; (E4) 6 separators repeated 1.5 to 3 million times in a row between two tokens, rendered in a child process; (R) random programs over all constructs from the shared generator; (R2) random programs of silent statements only (let, assignment, if chains, for over names / calls / literals with guarded break and continue, functions in functions with guarded early returns, bare calls, now and then a text) whose top-level names are emitted at the end. Re-layouts: mode 1: between any two tokens of a tag one of {space, two spaces, tab, newline, CRLF, mixed white space, '# comment' + newline, a line comment containing % and >, two and three line comments in a row, nothing where no two tokens can fuse: next to ( ) [ ] { } , : and between an operator and its operand}; mode 2: + comment tags (empty, quoted, multi-line, code-like) between tags at top level and inside blocks; merging of adjacent silent tags (and of a silent tag into a preceding tag that opens a block); cutting a tag at statement boundaries; ';' between statements; mode 3 (wide): + a separator (none, white space, line comments) between the opener and the first token and between the last token and %>; empty line comments, line comments glued to the token before them, line comments holding unbalanced quotes, back-quotes, non-ASCII bytes, a trailing backslash, tag openers; '{}' and quoted literals glued to their neighbours; a statement boundary spelled as one blank, a tab or any separator instead of a newline (two statements on one line); cuts with comment tags and empty tags between the pieces; all adjacent tags merged; 1 to 3 comment tags in a row (bodies beginning with # = \" ` % <% }, CRLF) and tags holding no statement (<% %>, <%%>, only white space, only line comments) before any tag, before text, inside text and at the very end; the same applied to partial texts. Oracle: the variant renders exactly what the canonical layout renders (same output, or the same error modulo 'line N:'), and the canonical layout agrees with the reference interpreter where that is defined (class */reference-defined). Excluded by construction: no space next to '-' / '.' inside identifiers and numbers, statements beginning with ( [ or { are never joined to a previous tag or line (after an expression they continue it: call, index, helper block), a # line comment never directly follows '<%' and never precedes '%>' on the same line, NUL inside a comment (the lexer's end marker, excluded by C02 as well), top-level return. Non-trivial = the variant text differs from the canonical text; distinct by variant text."
+const rule = "programs: (E) 17 fixed programs (runs of silent statements; statements directly after the closing brace of if / else / else-if / for / for over a call / function / function in a function / helper block / nested blocks; loops with break and continue; hash and array literals; strings containing # and tag delimiters; text with line breaks) x both printers (tag per statement, compact single-tag blocks) x 3 modes x 600 (quick 100) enumerated layout decision vectors each; (E2) 17 source-level programs written with spellings the printer never produces (numbers with a leading or trailing dot in every operand position, operators, member access after a call or an index, back-quoted and escaped strings holding # %> and line breaks, literals over several lines, index assignment, empty blocks, if with return, chains and loops nested up to eight deep inside one tag, contentFor, comment tags and empty tags already present) x 3 modes x 2000 (quick 150) decision vectors; (E3) 10 source-level programs that END INSIDE their last tag (no %>; plush renders them) x 3 modes x 600 (quick 60) vectors; (E4) 6 separators repeated 1.5 to 3 million times in a row between two tokens, rendered in a child process; (E5) 3 statements x up to 30000 copies (around 10000): one tag per statement / all merged into one tag / one tag per statement inside a block, and as many output tags at top level / inside a block - the number of tags is layout; (R) random programs over all constructs from the shared generator; (R2) random programs of silent statements only (let, assignment, if chains, for over names / calls / literals with guarded break and continue, functions in functions with guarded early returns, bare calls, now and then a text) whose top-level names are emitted at the end. Re-layouts: mode 1: between any two tokens of a tag one of {space, two spaces, tab, newline, CRLF, mixed white space, '# comment' + newline, a line comment containing % and >, two and three line comments in a row, nothing where no two tokens can fuse: next to ( ) [ ] { } , : and between an operator and its operand}; mode 2: + comment tags (empty, quoted, multi-line, code-like) between tags at top level and inside blocks; merging of adjacent silent tags (and of a silent tag into a preceding tag that opens a block); cutting a tag at statement boundaries; ';' between statements; mode 3 (wide): + a separator (none, white space, line comments) between the opener and the first token and between the last token and %>; empty line comments, line comments glued to the token before them, line comments holding unbalanced quotes, back-quotes, non-ASCII bytes, a trailing backslash, tag openers; '{}' and quoted literals glued to their neighbours; a statement boundary spelled as one blank, a tab or any separator instead of a newline (two statements on one line); cuts with comment tags and empty tags between the pieces; all adjacent tags merged; 1 to 3 comment tags in a row (bodies beginning with # = \" ` % <% }, CRLF) and tags holding no statement (<% %>, <%%>, only white space, only line comments) before any tag, before text, inside text and at the very end; the same applied to partial texts. Oracle: the variant renders exactly what the canonical layout renders (same output, or the same error modulo 'line N:'), and the canonical layout agrees with the reference interpreter where that is defined (class */reference-defined). Excluded by construction: no space next to '-' / '.' inside identifiers and numbers, statements beginning with ( [ or { are never joined to a previous tag or line (after an expression they continue it: call, index, helper block), a # line comment never directly follows '<%' and never precedes '%>' on the same line, NUL inside a comment (the lexer's end marker, excluded by C02 as well), top-level return. Non-trivial = the variant text differs from the canonical text; distinct by variant text."
 
 func setup(t *testing.T) *vk.Run {
 	r := vk.Start(t, "C18", rule,
 		"the tokenizer used for re-layout understands only what model.Printer prints; cases it cannot split are counted under excluded",
 		"metamorphic: the canonical layout is the baseline; its agreement with the reference interpreter is checked where the reference is defined")
+	r.Replayer("many", func(raw json.RawMessage) *vk.Fail {
+		var c ManyCase
+		if f := vk.Decode(raw, &c); f != nil {
+			return f
+		}
+		if c.Stmt < 0 || c.Stmt >= len(manyStmts) || c.N < 0 || c.N > 200000 {
+			return &vk.Fail{Kind: "decode", Msg: "bad case"}
+		}
+		return runMany(r, c, "replay")
+	})
 	r.Replayer("long", func(raw json.RawMessage) *vk.Fail {
 		var c LongCase
 		if f := vk.Decode(raw, &c); f != nil {
@@ -1072,6 +1126,18 @@ func TestProp(t *testing.T) {
 		})
 	}
 
+	if r.Shard == 0 {
+		var manys []ManyCase
+		for si := range manyStmts {
+			for _, n := range []int{1, 2, 100, 1000, 9999, 10000, 10001, 12000, 30000} {
+				manys = append(manys, ManyCase{Stmt: si, N: n})
+			}
+		}
+		r.Subspace("3 statements x {1, 2, 100, 1000, 9999, 10000, 10001, 12000, 30000} copies: one tag per statement / all merged into one tag / one tag per statement inside a block; as many output tags at top level / inside a block", int64(len(manys)), true)
+		for _, c := range manys {
+			r.Check(runMany(r, c, "many-tags"))
+		}
+	}
 	if longRuns && r.Shard == 0 {
 		// class long-run-of-line-comments: a violation of this phase with Sep "#\n" is the defect "the lexer recurses once
 		// per line comment" (lexer.nextInsideToken), see the report
